@@ -50,6 +50,10 @@ def chunked_body(rng, body, mutate=None):
         if rng.random() < 0.2:
             size = b"0" * rng.randint(1, 3) + size
         ext = rng.choice(EXTS)
+        if rng.random() < 0.03:
+            # a long (valid) chunk extension: control lines beyond any "reasonable" size
+            ext = rng.choice([b";x=", b";", b';q="']) + b"a" * rng.choice([1015, 1030, 1100, 2100])
+            ext += b'"' if ext.startswith(b';q="') else b""
         term = b"\r\n"
         if mutate and i == mut_idx:
             if mutate[0] == "size":
@@ -90,6 +94,8 @@ def gen_message(rng, mutate=None):
         headers.append((b"X-Fold", b"a\r\n\tb"))
     if rng.random() < 0.2:
         headers.append((b"Expect", rng.choice([b"100-continue", b"100-Continue", b"100-continue ", b"other"])))
+    if rng.random() < 0.02:
+        headers.append((b"X-Long", rng.choice([b"v", b"\xe9", b"a b"]) * rng.choice([1000, 1024, 1030, 3000])))
     framing = rng.choice(["none", "none", "cl", "cl", "chunked", "chunked", "cl+te", "cl0"])
     if version not in (b" HTTP/1.1",) and framing in ("chunked", "cl+te") and rng.random() < 0.7:
         framing = "cl"
@@ -119,10 +125,22 @@ def gen_message(rng, mutate=None):
         m = rng.choice(CL_MUTANTS)
         headers = [(k, v) for k, v in headers if k != b"Content-Length"] + [(b"Content-Length", m)]
         payload = body[:5].ljust(5, b"x")
+    elif mutate == "cl-te-empty":
+        # a Transfer-Encoding that names no coding next to a (mostly invalid) Content-Length
+        m = rng.choice(CL_MUTANTS + [b"5", b"5"])
+        te = rng.choice([b"", b",", b" ", b"\t,", b", ,"])
+        headers = [(k, v) for k, v in headers if k.lower() not in (b"content-length", b"transfer-encoding")]
+        pair = [(b"Content-Length", m), (b"Transfer-Encoding", te)]
+        rng.shuffle(pair)
+        headers += pair
+        payload = body[:5].ljust(5, b"x")
     elif mutate == "cl-dup":
         headers = [(k, v) for k, v in headers if k.lower() not in (b"content-length", b"transfer-encoding")]
         a = b"%d" % len(body)
         b = rng.choice([a, b"%d" % (len(body) + 1), b"0"])
+        if rng.random() < 0.3:
+            # the first occurrence empty / white space only, the second one valid
+            a, b = rng.choice([b"", b" ", b"\t "]), a
         headers += [(b"Content-Length", a), (rng.choice([b"Content-Length", b"content-length", b"Content_Length"]), b)]
         payload = body
     elif mutate == "te-dup":
@@ -199,7 +217,7 @@ def gen_message(rng, mutate=None):
     return head + payload, tags
 
 
-MUTATIONS = ["cl-value", "cl-dup", "te-dup", "te", "chunk-size", "chunk-term", "chunk-last", "chunk-trailer",
+MUTATIONS = ["cl-value", "cl-te-empty", "cl-dup", "te-dup", "te", "chunk-size", "chunk-term", "chunk-last", "chunk-trailer",
              "bare-lf", "ws-colon", "bad-name", "first-line", "lead-crlf", "bad-line-obs"]
 
 
